@@ -86,6 +86,7 @@ type Observer struct {
 	tags     []uint32
 	// Disclosed lists every MAC key disclosed on the wire: key -> first message index
 	Disclosed map[string]int
+	macKnown  map[string]bool
 	// Versions, when set, gives per party the allowed versions as bits (1 = v2, 2 = v3)
 	Versions []int
 	skCache  map[string]*SessionKeys
@@ -479,9 +480,54 @@ func (o *Observer) obsData(m *ObsMsg, from int, header, body []byte) {
 			m.issue("counter %d not above previous %d for the same key pair", d.Ctr, o.lastCtr[ck])
 		}
 		o.lastCtr[ck] = d.Ctr
+		// what is given up as "old MAC keys" must be MAC keys: of this party, of some key pair it could form
+		for i := 0; i+20 <= len(d.OldMACKeys); i += 20 {
+			if k := d.OldMACKeys[i : i+20]; !o.isMACKeyOf(from, s, role, d, k) {
+				m.issue("disclosed-key unknown: the field of old MAC keys carries %x, which is no MAC key of any key pair of this party", k)
+				break
+			}
+		}
 		return
 	}
 	m.issue("data message MAC verifies under no key pair derivable from the parties' secrets (sender key %d, recipient key %d)", d.SenderKeyID, d.RecipKeyID)
+}
+
+// isMACKeyOf looks for k among the MAC keys of party's key pairs: first near the ids of the message that
+// discloses it, then everywhere.
+func (o *Observer) isMACKeyOf(party int, s *Session, role int, d *DataMsg, k []byte) bool {
+	if o.macKnown == nil {
+		o.macKnown = map[string]bool{}
+	}
+	if o.macKnown[string(k)] {
+		return true
+	}
+	for oid := d.SenderKeyID + 1; oid+6 > d.SenderKeyID && oid > 0; oid-- {
+		opub := s.Pubs[role][oid]
+		if opub == nil {
+			continue
+		}
+		priv := o.Priv(party, opub)
+		if priv == nil {
+			continue
+		}
+		for tid := d.RecipKeyID + 1; tid+6 > d.RecipKeyID && tid > 0; tid-- {
+			tpub := s.Pubs[1-role][tid]
+			if tpub == nil {
+				continue
+			}
+			sk := o.derive(priv, opub, tpub)
+			o.macKnown[string(sk.SendMAC)], o.macKnown[string(sk.RecvMAC)] = true, true
+		}
+	}
+	if o.macKnown[string(k)] {
+		return true
+	}
+	for _, ss := range o.Sessions {
+		for _, pk := range o.PairKeys(party, ss) {
+			o.macKnown[string(pk.SendMAC)], o.macKnown[string(pk.RecvMAC)] = true, true
+		}
+	}
+	return o.macKnown[string(k)]
 }
 
 // MACKeysOf enumerates the MAC keys (both directions) of every key pair of a session known so far:
